@@ -228,7 +228,10 @@ class SqliteStateStore(Generic[MODEL_T]):
 
     async def clear(self) -> None:
         """Reset the state to its type defaults."""
-        await self.set_state(create_cleared_state(self.state_type))
+        # Like the in-memory store: the defaults of the class of the current state,
+        # which is a subclass of state_type after set_state() with a subclass instance.
+        current_type = type(self._load_state())
+        await self.set_state(create_cleared_state(current_type))
 
     @asynccontextmanager
     async def edit_state(self) -> AsyncGenerator[MODEL_T, None]:
